@@ -251,11 +251,56 @@ def check(an: Analysis) -> None:
         w = g.search([g.entry], lambda n: n.kind == "exit-return", skip_node=lambda n: n.kind == "return", skip_edge=normal_only)
         if w is not None:
             ob.fail(f, None, "a non-matching value falls through and is accepted as None", CFG.show_path(w))
+    ob = an.ob("C05.10", "K10", "validators are resolved from the annotation object itself: no module-level cache keyed by a rendered (str/repr/name/hash) annotation, whose rendering is not injective")
+    ob.inst(None, None, f"{len([f for f in prog.functions.values() if f.module.name.startswith('haiway.state')])} functions of haiway.state scanned")
+    for fi, n in lossy_cache_uses(an):
+        ob.inst(fi, n)
+        ob.fail(fi, n, "a validator / annotation cache is keyed by a rendering of the annotation: different annotations that print alike (Literal[1] vs Literal['1'], two classes named alike) share a validator - conforming values are rejected and non-conforming ones accepted, depending on definition order")
     av = prog.fn(f"{VAL}.attribute_validator")
     ga = an.cfg(av)
+    ap = av.param_names()[0]
+    for r in [r for r in av.own_nodes() if isinstance(r, ast.Return)]:
+        v = unwrap(r.value)
+        if not (isinstance(v, ast.Call) and len(v.args) == 1 and is_name(v.args[0], ap)):
+            ob.fail(av, r, "attribute_validator returns something that is not a validator factory applied to this very annotation")
+        else:
+            ob.inst(av, r)
     w = ga.search([ga.entry], lambda n: n.kind == "exit-return", skip_node=lambda n: n.kind == "return", skip_edge=normal_only)
     if w is not None:
         ob.fail(av, None, "attribute_validator can return None for an unsupported annotation instead of raising", CFG.show_path(w))
+
+
+def lossy_cache_uses(an: Analysis, module_prefix: str = "haiway.state"):
+    """Lookups / stores in a module-level container keyed by a *rendered* annotation (str()/repr()/f-string):
+    AttributeAnnotation.__str__ is not injective (Literal[1] vs Literal["1"], same-named classes)."""
+    out = []
+    for fi in an.prog.functions.values():
+        if not fi.module.name.startswith(module_prefix):
+            continue
+        for n in fi.own_nodes():
+            key = None
+            base = None
+            if isinstance(n, ast.Subscript):
+                base, key = n.value, n.slice
+            elif isinstance(n, ast.Call) and isinstance(n.func, ast.Attribute) and n.func.attr in ("get", "setdefault", "pop") and n.args:
+                base, key = n.func.value, n.args[0]
+            elif isinstance(n, ast.Compare) and len(n.ops) == 1 and isinstance(n.ops[0], (ast.In, ast.NotIn)):
+                base, key = n.comparators[0], n.left
+            if base is None or not isinstance(base, ast.Name) or an.prog.is_local(fi, base.id):
+                continue
+            if base.id not in fi.module.assigns:
+                continue
+            d = Deps(an.prog, fi)
+            k = d.inline(key)
+            rendered = any(
+                (isinstance(x, ast.Call) and isinstance(x.func, ast.Name) and x.func.id in ("str", "repr", "format", "hash", "id"))
+                or isinstance(x, ast.JoinedStr)
+                or (isinstance(x, ast.Attribute) and x.attr in ("__name__", "__qualname__"))
+                for x in ast.walk(k)
+            )
+            if rendered:
+                out.append((fi, n))
+    return out
 
 
 def _applies(call: ast.AST | None, fname: str, arg: str) -> bool:
@@ -304,3 +349,13 @@ def _anc(n: ast.AST):
     from ..loader import ancestors
 
     return ancestors(n)
+
+
+def liveness(fixtures: str) -> list[dict]:
+    import os
+
+    an = Analysis(os.path.join(fixtures, "c05_lossy_cache"), floors=False)
+    hits = lossy_cache_uses(an)
+    if len(hits) < 2:
+        raise AnalysisError(f"rule C05.10 fires {len(hits)} times on its fixture, expected >= 2")
+    return [{"rule": "C05.10", "fixture": "fixtures/c05_lossy_cache", "matches": len(hits)}]
